@@ -22,6 +22,7 @@ type State struct {
 	NOpen     int             // increments applied to the open-group counter of the handler being built
 	NZero     bool            // the receiver's symbolic number of open groups is known to be zero
 	NeedGroup bool            // path exists only if a slog.Value of kind Group reached a value emitter
+	Snap      map[string]G    // grammar state remembered by `n := len(*buf)` (restored by `*buf = (*buf)[:n]`)
 }
 
 func (s State) clone() State {
@@ -29,6 +30,12 @@ func (s State) clone() State {
 	n.Env = make(map[string]bool, len(s.Env))
 	for k, v := range s.Env {
 		n.Env[k] = v
+	}
+	if s.Snap != nil {
+		n.Snap = make(map[string]G, len(s.Snap))
+		for k, v := range s.Snap {
+			n.Snap[k] = v
+		}
 	}
 	return n
 }
@@ -39,7 +46,12 @@ func (s State) key() string {
 		ks = append(ks, fmt.Sprintf("%s=%v", k, v))
 	}
 	sort.Strings(ks)
-	return fmt.Sprintf("%d/%d/%d/%v/%d/%v/%v|%s", s.G.S, s.G.C, s.G.K, s.G.Abs, s.NOpen, s.NZero, s.NeedGroup, strings.Join(ks, ","))
+	var sn []string
+	for k, v := range s.Snap {
+		sn = append(sn, fmt.Sprintf("%s@%d", k, v.S))
+	}
+	sort.Strings(sn)
+	return fmt.Sprintf("%d/%d/%d/%v/%d/%v/%v|%s|%s", s.G.S, s.G.C, s.G.K, s.G.Abs, s.NOpen, s.NZero, s.NeedGroup, strings.Join(ks, ","), strings.Join(sn, ","))
 }
 
 func dedup(in []State) []State {
@@ -106,11 +118,12 @@ type Interp struct {
 	probSeen   map[string]bool
 	Undecided  []Problem
 	Summaries  map[string][]Outcome
+	Visited    map[token.Pos]bool // append sites the interpreter executed abstractly
 	curFn      string
 }
 
 func New(cfg Config) *Interp {
-	return &Interp{cfg: cfg, memo: map[string][]Outcome{}, active: map[string]bool{}, usedActive: map[string]bool{}, done: map[string]bool{}, probSeen: map[string]bool{}, Summaries: map[string][]Outcome{}}
+	return &Interp{cfg: cfg, memo: map[string][]Outcome{}, active: map[string]bool{}, usedActive: map[string]bool{}, done: map[string]bool{}, probSeen: map[string]bool{}, Summaries: map[string][]Outcome{}, Visited: map[token.Pos]bool{}}
 }
 
 func (it *Interp) problem(pos token.Pos, format string, a ...any) {
@@ -879,7 +892,49 @@ func (it *Interp) switchStmt(fc *fctx, x *ast.SwitchStmt, in []State) flow {
 func (it *Interp) assign(fc *fctx, x *ast.AssignStmt, in []State) []State {
 	// emission: `*buf = append(*buf, …)` / `*buf = pkg.AppendX(*buf, …)` / `h2.pre = append(h2.pre, …)`
 	if len(x.Lhs) == 1 && len(x.Rhs) == 1 {
+		// `n := len(*buf)`: remember the grammar state under the name n
+		if id, ok := x.Lhs[0].(*ast.Ident); ok {
+			if call, ok := x.Rhs[0].(*ast.CallExpr); ok && len(call.Args) == 1 {
+				if f, ok := call.Fun.(*ast.Ident); ok && f.Name == "len" {
+					if _, isBuf := it.bufDeref(fc, call.Args[0]); isBuf {
+						var out []State
+						for _, st := range in {
+							n := st.clone()
+							if n.Snap == nil {
+								n.Snap = map[string]G{}
+							}
+							n.Snap[id.Name] = n.G
+							out = append(out, n)
+						}
+						return dedup(out)
+					}
+				}
+			}
+		}
 		if base, ok := it.bufDeref(fc, x.Lhs[0]); ok {
+			// `*buf = (*buf)[:n]`: back to the remembered state
+			if sl, ok := x.Rhs[0].(*ast.SliceExpr); ok && sl.Low == nil && sl.High != nil && !sl.Slice3 {
+				if _, isBuf := it.bufDeref(fc, sl.X); isBuf {
+					if id, ok := sl.High.(*ast.Ident); ok {
+						var out []State
+						okAll := true
+						for _, st := range in {
+							g, have := st.Snap[id.Name]
+							if !have {
+								okAll = false
+								continue
+							}
+							n := st.clone()
+							n.G = g
+							out = append(out, n)
+						}
+						if okAll {
+							return dedup(out)
+						}
+					}
+				}
+			}
+			_ = base
 			if call, ok := x.Rhs[0].(*ast.CallExpr); ok {
 				return it.emission(fc, call, base, in)
 			}
@@ -958,6 +1013,7 @@ func (it *Interp) assign(fc *fctx, x *ast.AssignStmt, in []State) []State {
 
 // emission interprets one append to the line buffer.
 func (it *Interp) emission(fc *fctx, call *ast.CallExpr, base string, in []State) []State {
+	it.Visited[call.Lparen] = true
 	cls, ok := it.cfg.ClassAt(call.Lparen)
 	if !ok {
 		it.undecided(call.Pos(), "append site not classified by the sanitizer analysis")
@@ -999,6 +1055,23 @@ func (it *Interp) emission(fc *fctx, call *ast.CallExpr, base string, in []State
 					out = append(out, n)
 				}
 			}
+		}
+		return dedup(out)
+	case cls.Class == "maybe-empty":
+		// a string that may be empty: with the predicate `len(x) > 0` known true it is a token, otherwise it may also be nothing
+		tok := it.cfg.TokenOf(cls.Class)
+		var out []State
+		arg := ""
+		if len(call.Args) >= 2 {
+			arg = exprString(call.Args[len(call.Args)-1])
+		}
+		for _, st := range in {
+			if v, known := st.Env["pred:len("+arg+") > 0"]; known && v {
+				out = append(out, it.emitToken(call.Pos(), []State{st}, base, tok)...)
+				continue
+			}
+			out = append(out, it.emitToken(call.Pos(), []State{st}, base, tok)...)
+			out = append(out, st)
 		}
 		return dedup(out)
 	default:
@@ -1317,3 +1390,17 @@ func (it *Interp) RunMethod(fn *types.Func, decl *ast.FuncDecl, bufs []string, e
 
 // Exported view of retState for callers.
 func (r retState) State() State { return r.St }
+
+// SummaryOf computes the summary of an emitter from a given entry state (exported entry point).
+func (it *Interp) SummaryOf(fn *types.Func, s int, boolArgs map[string]bool) []Outcome {
+	decl := it.cfg.Decls[fn]
+	if decl == nil {
+		return nil
+	}
+	var ks []string
+	for k, v := range boolArgs {
+		ks = append(ks, fmt.Sprintf("%s=%v", k, v))
+	}
+	sort.Strings(ks)
+	return it.summary(fn, decl, s, boolArgs, strings.Join(ks, ","))
+}
